@@ -135,7 +135,13 @@ def _(c):
     c.bound = "substances with 1-3 components; added species new or present; proportion symbolic"
     c.chunk = 3
     for text, key in [("H2O", "H"), ("H2O", "O"), ("H2O", "C"), ("NaCl", "Na"), ("Ca(OH)2", "Fe{+3}"), ("CO2", "O")]:
-        c.scenario(f"{text} add {key}", (lambda text, key: lambda b: dict(args=[b.new(SUB, text), key, b.real("p")]))(text, key))
+        def pre(b, text=text, key=key):
+            s = b.new(SUB, text)
+            # the table was read once before (printing does that): what is read after add() must describe the new state
+            b.call(b.getattr(s, "data_composite"), quantity=False)
+            return dict(args=[s, key, b.real("p")], env=dict(m0=_mass(text), mk=M.species(key)[0], z0=_sums(M.expand_text(text), True)[1], zk=M.species(key)[1]))
+        c.scenario(f"{text} add {key}", pre)
+    c.ensures("(lambda d: near(d['mass'], m0 + proportion * mk) and near(d['Z'], z0 + proportion * zk))(self.data_composite(quantity=False)['sum'].data())", "totals-read-afterwards-are-those-of-the-new-counts")
     c.requires("proportion > 0")
     c.ensures("counts(self) == {k: (old(counts(self)).get(k, 0) + (proportion if k == expr else 0)) for k in list(old(counts(self)).keys()) + ([expr] if expr not in old(counts(self)) else [])}", "count-of-the-species-increased-others-unchanged")
     c.ensures("self.proportion_norm == sum([n for n in counts(self).values()])", "norm-follows-the-counts")
@@ -149,7 +155,8 @@ if TIER != "thorough":
 
 
 STRING_MIXES = [(["H2O", "NaCl"], ["0.2", "0.8"]), (["N2", "O2", "Ar"], ["78.084", "20.946", "0.934"]),
-                (["H2O", "NaCl", "Ar"], ["2.5e-12", "1.25e-12", "6.25e-12"])]   # only the ratios matter, however small the amounts
+                (["H2O", "NaCl", "Ar"], ["2.5e-12", "1.25e-12", "6.25e-12"]),   # only the ratios matter, however small the amounts
+                (["H2O", "NaCl", "CO2"], ["1.e-02", "5.e-01", "2.5E+00"])]      # every spelling float() reads (numpy's scientific format)
 
 
 @spec
